@@ -125,6 +125,18 @@ pub fn convert_grammar_functions_to_semantic_functions(
         }
     }
 
+    // Every slot becomes a field of the vftable struct (and usually a wrapper method), so the
+    // names, including those of the generated placeholders, have to be distinct.
+    let mut seen = std::collections::HashSet::new();
+    for function in &output {
+        if !seen.insert(function.name.as_str()) {
+            anyhow::bail!(
+                "vftable has more than one function named `{}`",
+                function.name
+            );
+        }
+    }
+
     Ok(Some(output))
 }
 
